@@ -65,3 +65,21 @@ Theorem loop_drain_crosses_argless_refuted :
   <> spec [S_ InLoop true; S_ Cond false; S_ InLoop true] [(0, 100%N); (1, 0%N)]%nat.
 Proof. exact drain_crosses_argless_refuted. Qed.
 Print Assumptions loop_drain_crosses_argless_refuted.
+
+(* recover and re-panic: what each recover() reports and whether the function
+   ends panicking are those of Go, for every shape, every consistent run and
+   every assignment of behaviours (plain / recovers / panics again) to the
+   deferred functions *)
+Theorem recover_repanic_outcome_matches_go : forall sh kinds tr cur,
+  consistent (effective sh) tr -> machine_outcome sh kinds tr cur = spec_outcome sh kinds tr cur.
+Proof. exact outcome_matches. Qed.
+Print Assumptions recover_repanic_outcome_matches_go.
+
+(* a directly called recover() as the last non-plain deferred call lets the
+   function return normally *)
+Theorem recover_stops_the_panic : forall kinds cs cur i,
+  nth i kinds DPlain = DRecover ->
+  (forall c, In c cs -> nth (fst c) kinds DPlain = DPlain) ->
+  forall p, snd (outcome kinds ((i, p) :: cs) cur) = false.
+Proof. exact outcome_recover_last. Qed.
+Print Assumptions recover_stops_the_panic.
